@@ -21,6 +21,7 @@ import GocoinV.Proofs.C12PanicRbf
 import GocoinV.Proofs.C12PanicSort
 import GocoinV.Proofs.C12PanicUndo
 import GocoinV.Proofs.C12Wrap
+import GocoinV.Proofs.C12Seed4
 namespace GocoinV.Props.C12
 open GocoinV.Mempool
 
@@ -504,6 +505,75 @@ theorem partial_load_counterexample :
     (submitNet K0 0 (loadRefused K0 sL 1 none) txA2 false).1 = 0 ∧
     (submitNet K0 0 (loadRefused K0 sL 1 none) txA2 false).2.pool.map (·.1) = [12] ∧
     (submitNet K0 0 sL txA2 false).1 = 0 ∧ (submitNet K0 0 sL txA2 false).2.pool.map (·.1) = [12, 13] := by
+  decide
+
+/-! a block undone while the sorted list is live (text-UI `undo slow`) -/
+
+/-- pays 1 for 400 weight units: a poor fee rate -/
+def txT : Tx := { id := 20, ins := [⟨1, 0, 0⟩], outs := [59], nws := 100, size := 100, scriptOk := true }
+/-- stays in the pool: the child's OTHER unconfirmed parent -/
+def txP : Tx := { id := 21, ins := [⟨2, 0, 0⟩], outs := [50], nws := 100, size := 100, scriptOk := true }
+/-- spends output 0 of txT and output 0 of txP, pays 49: a much better fee rate than txT's -/
+def txKid : Tx := { id := 22, ins := [⟨20, 0, 0⟩, ⟨21, 0, 0⟩], outs := [60], nws := 100, size := 100, scriptOk := true }
+def sU0 : State := { utxo := [((1, 0), ⟨60, 1, false⟩), ((2, 0), ⟨60, 1, false⟩)], height := 5 }
+/-- txP pooled; block 6 confirms txT; the child txKid of both arrives; a listing is taken (list clean) -/
+def sU1 : State := run K0 sU0 [.submitNet txP false 0, .block 6 [txT] 0, .tip 6, .submitNet txKid false 0, .resort]
+/-- block 6 is undone with sorting enabled (SortingDisabled = false: UndoLastBlock without BlockCommitInProgress(true)) -/
+def sU2 : State := step K0 sU1 (.undo 6 0)
+
+/-- THE DIRTY MARK OF unmined() IS LOAD-BEARING, ALSO FOR A CHILD WHOSE MemInputs WAS ALREADY ALLOCATED (a concrete
+    instance, checked by evaluation of the model's own `step`). txP (id 21) is pooled, block 6 confirms txT (id 20, poor
+    fee rate), then txKid (id 22) arrives: it spends txT's output (confirmed) and txP's (pooled) - its MemInputs is
+    [false, true], allocated - and pays a much better rate than txT. After a listing the BestT2S…WorstT2S list is clean:
+    [21, 22]. Now block 6 is undone while SortingDisabled is false (the text-UI command `undo slow`, or any direct caller
+    of BlockUndone): processTx puts txT back and AddToSort inserts it into the live list BY ITS OWN RATE - below its child:
+    the raw list is [21, 22, 20], child 22 BEFORE parent 20. unmined() then sets txKid's flag for that input ([true, true],
+    MemInputCnt 2) and raises SortListDirty. Only that mark makes the next listing (`.resort` = buildSortedList) rebuild
+    the list to [21, 20, 22], parents first. `sorted_list_inv` speaks about non-dirty lists: it is the mark that keeps
+    the wrong raw list out of its scope, in exactly this history class - a block undone with sorting enabled, the child
+    having another unconfirmed parent - which the harness now drives on the real code (corpus:undo-sorting-on, `undo slow`
+    in the random histories). -/
+theorem unmined_dirty_mark_needed :
+    sU1.sortDisabled = false ∧ sU1.sortDirty = false ∧ sU1.sorted = [21, 22] ∧
+    (sU1.pool.get? 22).map (fun t => (t.mem, t.memCnt)) = some ([false, true], 1) ∧
+    sU2.panicked = false ∧ sU2.pool.map (·.1) = [22, 20, 21] ∧
+    (sU2.pool.get? 22).map (fun t => (t.mem, t.memCnt)) = some ([true, true], 2) ∧
+    sU2.sorted = [21, 22, 20] ∧ sU2.sortDirty = true ∧
+    (step K0 sU2 .resort).sortDirty = false ∧ (step K0 sU2 .resort).sorted = [21, 20, 22] := by
+  decide
+
+/-! save + reload and the age of the records -/
+
+/-- SAVE + RELOAD KEEPS EVERY POOLED RECORD. MempoolSave writes every record of TransactionsToSend and MempoolLoad puts
+    every record of a complete file back (`reload`): the keys of the pool and the transaction of every record are
+    unchanged, for every state. The model has no clock: a record's age (Lastseen) plays no part in `reload` - a record
+    leaves the pool because of its age only through `expire` (expireOldTxs), which deletes it WITH all its descendants
+    (`load_filter_counterexample` below shows why the loader must not filter on its own). The harness drives the real
+    loader with records aged to both sides of TXPool.ExpireInDays (corpus:aged-reload, ageing in the random histories)
+    and compares the reloaded pool with this model. -/
+theorem reload_keeps_every_record (K : Keys) (s : State) :
+    (reload K s).pool.map (·.1) = s.pool.map (·.1) ∧
+    (reload K s).pool.map (fun p => p.2.tx) = s.pool.map (fun p => p.2.tx) :=
+  ⟨reload_pool_keys K s, reload_pool_txs K s⟩
+
+/-- txA (id 7, spends the confirmed coin (1,0)) and its child txB (id 8, spends txA's output 0) pooled -/
+def sF : State := run K0 sU0 [.submitNet txA false 0, .submitNet txB false 0]
+
+/-- WHY THE LOADER MUST NOT DROP SINGLE RECORDS (a concrete instance, checked by evaluation). `sF` pools txA (7) and its
+    child txB (8, MemInputs [true]). (1) `reload` keeps both, the flag recovered. (2) The load of the same file with the
+    record of txA left out (say, because txA alone is past its expiry time) is `reload` of the pool without key 7: it
+    holds txB alone, its MemInputs cleared by the recovery loop (no pooled parent found: the slice is set to nil, i.e.
+    the input now counts as a confirmed one), SpentOutputs still maps (7,0) to txB - and the confirmed set has no (7,0):
+    an input that is neither an unspent confirmed output nor an output of a pooled transaction, which C12 excludes.
+    (3) What expiry does instead: `expire` of txA removes txA AND txB; reloading that leaves the pool empty. -/
+theorem load_filter_counterexample :
+    sF.pool.map (fun p => (p.1, p.2.mem)) = [(8, [true]), (7, [])] ∧
+    (reload K0 sF).pool.map (fun p => (p.1, p.2.mem, p.2.memCnt)) = [(8, [true], 1), (7, [], 0)] ∧
+    (reload K0 { sF with pool := sF.pool.filter fun p => p.1 != 7 }).pool.map (fun p => (p.1, p.2.mem, p.2.memCnt))
+      = [(8, [], 0)] ∧
+    (reload K0 { sF with pool := sF.pool.filter fun p => p.1 != 7 }).spent = [(7000, 8)] ∧
+    (reload K0 { sF with pool := sF.pool.filter fun p => p.1 != 7 }).utxo.get? (7, 0) = none ∧
+    (expire K0 sF [7]).pool = [] ∧ (reload K0 (expire K0 sF [7])).pool = [] := by
   decide
 
 example : (submitNet K0 0 s0 txA false).1 = 0 := by decide
